@@ -75,5 +75,41 @@ def readAll (rd : Bytes → Option (Bytes × Bytes)) : Nat → Bytes → List By
     match rd file with
     | none => []
     | some (seg, rest) => seg :: readAll rd fuel rest
+/-! ### `gp_str_file`: whole-file read, write and append over an environment that may fail
+
+The operating system is a parameter: what `stat` reports, whether `fopen` succeeds, which bytes the
+stream delivers when it is finally read, how many bytes the device accepts, whether `fclose` can flush. -/
+
+structure ReadEnv where
+  statSize : Option Nat        -- `stat`: the size sampled; `none` = the call fails (no such file)
+  opens : Bool                 -- `fopen(path, "r")` succeeds
+  stream : Bytes               -- the bytes the stream can deliver when it is read (the file as it is *then*)
+
+/-- read mode: the return value and, on success, the new contents of the destination.  `fread` is asked for
+the sampled size and delivers at most that many bytes; fewer is a failure. -/
+def strFileRead (e : ReadEnv) : Int × Option Bytes :=
+  match e.statSize with
+  | none => (-1, none)
+  | some n =>
+    if !e.opens then (-1, none)
+    else if (e.stream.take n).length ≠ n then (-1, none)
+    else (0, some (e.stream.take n))
+
+structure WriteEnv where
+  opens : Bool                 -- `fopen(path, "wb" / "ab")` succeeds
+  accepts : Nat                -- bytes `fwrite` reports as written (all of them unless the device fails meanwhile)
+  closeOk : Bool               -- `fclose` flushes what is still buffered
+
+/-- write / append mode: the return value and the file's contents afterwards (`none`: not determined, the
+write failed part-way) -/
+def strFileWrite (e : WriteEnv) (append : Bool) (old s : Bytes) : Int × Option Bytes :=
+  if !e.opens then (-1, some old)
+  else if e.accepts < s.length then (-1, none)
+  else if !e.closeOk then (-1, none)
+  else (0, some ((if append then old else []) ++ s))
+
+/-- an environment in which nothing fails and the file holds `file` -/
+def quietRead (file : Bytes) : ReadEnv := { statSize := some file.length, opens := true, stream := file }
+def quietWrite (s : Bytes) : WriteEnv := { opens := true, accepts := s.length, closeOk := true }
 
 end Gpc.FileIO
